@@ -57,4 +57,27 @@ def threadCount (ncpu : Nat) (v : Int) : Option Nat :=
   else if v > 0 then some v.toNat
   else some (max ((ncpu : Int) + v) 1).toNat
 
+/-- `threads-required` (config/threads_required.rs) -/
+inductive ThreadsRequired where
+  | count (n : Nat)
+  | numCpus
+  | numTestThreads
+  deriving DecidableEq, Repr
+
+/-- `ThreadsRequired::compute(test_threads)` -/
+def ThreadsRequired.compute (tr : ThreadsRequired) (ncpu testThreads : Nat) : Nat :=
+  match tr with
+  | .count n => n
+  | .numCpus => ncpu
+  | .numTestThreads => testThreads
+
+/-- `TestRunnerBuilder::build` (runner/imp.rs): without capture tests run one at a time; otherwise the command line's
+    `--test-threads` / `NEXTEST_TEST_THREADS`, otherwise the profile's -/
+def runTestThreads (noCapture : Bool) (cli : Option Nat) (profile : Nat) : Nat :=
+  if noCapture then 1 else cli.getD profile
+
+/-- the weight a test is queued with (`run_test` closure in imp.rs): its threads-required against the run's thread count -/
+def testWeight (tr : ThreadsRequired) (ncpu : Nat) (noCapture : Bool) (cli : Option Nat) (profile : Nat) : Nat :=
+  tr.compute ncpu (runTestThreads noCapture cli profile)
+
 end NextestModel.Priority
